@@ -1,6 +1,7 @@
 package zzbql
 
 import (
+	"runtime"
 	"time"
 
 	"github.com/google/badwolf/bql/table"
@@ -198,6 +199,13 @@ func HarnessC14Relations() {
 // the reference join on every schedule.
 func HarnessC14Procs() {
 	n := verif.Param("ROWS", 3)
+	if !verif.Symbolic() {
+		// natively the processor count is set for real (in the engine the parameter is
+		// what runtime.GOMAXPROCS(0) returns)
+		if p := verif.Param("GOMAXPROCS", 0); p > 0 {
+			defer runtime.GOMAXPROCS(runtime.GOMAXPROCS(p))
+		}
+	}
 	var ts []*triple.Triple
 	for i := 0; i < n; i++ {
 		u, f := mustNode("/u", string([]byte{'a' + byte(i)})), mustNode("/f", string([]byte{'a' + byte(i)}))
